@@ -842,16 +842,42 @@ impl<'a, 'b> Life<'a, 'b> {
 
     fn drop_race(&mut self, n: u8, wait: bool) -> CaseResult {
         let dir_kind = self.env.kind;
-        let Some(hd) = self.holder.take() else {
+        let Some(mut hd) = self.holder.take() else {
             self.cx.label("noop:drop_race_without_writer");
             return Ok(());
         };
+        // wait_merging_threads with a merge really in progress (SimDir: the merge thread is held at its first file):
+        // the writer exists, and keeps its lock, until the call returns
+        let mut merge_gate: Option<(SimDir, usize)> = None;
+        if wait && !hd.killed {
+            if let Some(sd) = self.env.sim.clone() {
+                let id_field = self.env.id;
+                let mut ok = true;
+                for _ in 0..2 {
+                    let id = self.fresh_id();
+                    ok &= hd.w.add_document(doc_with(id_field, id)).is_ok() && hd.w.commit().is_ok();
+                }
+                let ids = self.env.handles[hd.handle].searchable_segment_ids().unwrap_or_default();
+                if ok && ids.len() >= 2 {
+                    let g = sd.add_gate(crate::simdir::GateSpec { thread: "merge_thread".into(), kind: Some(crate::simdir::K::Create), path_suffix: String::new(), nth: 0, max_hold: std::time::Duration::from_millis(120) });
+                    let _merge_future = hd.w.merge(&ids);
+                    if sd.wait_reached(g, std::time::Duration::from_millis(100)) {
+                        merge_gate = Some((sd, g));
+                    } else {
+                        sd.disarm(g);
+                    }
+                }
+            }
+        }
+        let merge_gate = &merge_gate;
         let handles = &self.env.handles;
         let n = (n as usize).clamp(1, 6);
         let done = AtomicBool::new(false);
         let barrier = Barrier::new(n + 1);
         let killed = hd.killed;
         // every thread attempts until it wins or has failed once after the drop completed: exactly one wins
+        let won_during_merge = AtomicBool::new(false);
+        let won_during_merge = &won_during_merge;
         let results: Vec<(usize, Option<IndexWriter>, Vec<String>)> = std::thread::scope(|s| {
             let ths: Vec<_> = (0..n)
                 .map(|i| {
@@ -866,7 +892,16 @@ impl<'a, 'b> Life<'a, 'b> {
                             loop {
                                 let finished = done.load(Ordering::SeqCst);
                                 match attempt(ix, &Spec::plain()) {
-                                    Att::Ok(w) => return (h, Some(w), bad),
+                                    Att::Ok(w) => {
+                                        // still held now => it was held when the creation succeeded: the previous
+                                        // writer cannot have returned from wait_merging_threads yet
+                                        if let Some((sd, g)) = merge_gate {
+                                            if sd.gate_pending(*g) {
+                                                won_during_merge.store(true, Ordering::SeqCst);
+                                            }
+                                        }
+                                        return (h, Some(w), bad);
+                                    }
                                     a if a.is_lock() => {}
                                     a => bad.push(a.short()),
                                 }
@@ -889,6 +924,15 @@ impl<'a, 'b> Life<'a, 'b> {
             ths.into_iter().map(|t| t.join().unwrap_or_else(|_| (0, None, vec!["race thread panicked".into()]))).collect()
         });
         self.nontrivial = true;
+        if let Some((sd, g)) = merge_gate {
+            sd.disarm(*g);
+            self.lab("drop_race:wait_merge_with_merge_in_progress");
+        }
+        ensure!(
+            !won_during_merge.load(Ordering::SeqCst),
+            "writer_created_while_previous_waits_for_merges",
+            "dir {dir_kind:?}: a second writer was created while the first one was inside wait_merging_threads with its merge thread still at work"
+        );
         let bad: Vec<String> = results.iter().flat_map(|r| r.2.clone()).collect();
         ensure!(bad.is_empty(), "race_unexpected_error", "dir {dir_kind:?}: attempts racing a drop: {bad:?}");
         let mut winners: Vec<(usize, IndexWriter)> = results.into_iter().filter_map(|(h, w, _)| w.map(|w| (h, w))).collect();
@@ -1037,6 +1081,7 @@ impl Sub for Lifecycle {
             "rollback_race@sim",
             "drop_race:drop@mmap",
             "drop_race:wait_merge",
+            "drop_race:wait_merge_with_merge_in_progress@sim",
             "kill_fired@sim",
             "kill_fired@mmap",
             "holder_commit_visible@mmap",
